@@ -110,7 +110,7 @@ def case(ctx, i, rec):
     mu = common.default_mu(ts, r)
     space = ["logarithmic", "linear"][i % 2]
     scale_t = 2 * Ne
-    eps = float(rng.choice([1e-8, 1e-6, 1e-3, 0.01 * scale_t, 0.1 * scale_t, 0.5 * scale_t]))
+    eps = float(rng.choice([0.0, 1e-8, 1e-6, 1e-3, 0.01 * scale_t, 0.1 * scale_t, 0.5 * scale_t]))
     mode = int(rng.integers(3))
     kw = dict(mutation_rate=mu, eps=eps, probability_space=space, return_fit=True)
     if mode == 0:
